@@ -4,6 +4,7 @@ import (
 	"crypto/sha256"
 	"encoding/json"
 	"fmt"
+	"math/big"
 
 	"github.com/meshplus/bitxhub-core/governance"
 	"github.com/meshplus/bitxhub-core/validator"
@@ -104,4 +105,25 @@ func (n *Node) SetProof(ibtp *pb.IBTP, proof []byte, commit bool) {
 		ibtp.Proof = ph[:]
 	}
 	n.proofs[ibtp] = proof
+}
+
+// secp256k1 group order
+var secpN, _ = new(big.Int).SetString("fffffffffffffffffffffffffffffffebaaedce6af48a03bbfd25e8cd0364141", 16)
+
+// TwinSignature returns the other valid recoverable signature of the same signer over the same digest:
+// (r, N-s, v^1). It differs in bytes and recovers to the same public key.
+func TwinSignature(sig []byte) []byte {
+	if len(sig) != 65 {
+		return sig
+	}
+	out := append([]byte{}, sig...)
+	s := new(big.Int).SetBytes(sig[32:64])
+	s.Sub(secpN, s)
+	b := s.Bytes()
+	for i := 32; i < 64; i++ {
+		out[i] = 0
+	}
+	copy(out[64-len(b):64], b)
+	out[64] ^= 1
+	return out
 }
